@@ -46,10 +46,10 @@
    - a user's data directory is not a stack's ups_db (u <> upsdb), and (in reachable) an
      administrator's instance only loads; user-tag answers are stated for instances that are not
      administrators (an administrator's instance holds no user tag, by design of the repair). *)
-From Eupsv Require Import Base.Base Model.Db Model.Cache.
+From Eupsv Require Import Base.Base Model.Db Model.Cache Model.CacheLive.
 From Eupsv Require Import Proofs.DbLib Proofs.Db Proofs.DbInv Proofs.DbCor.
 From Eupsv Require Import Proofs.CacheLib Proofs.CacheWt Proofs.CacheRebuild Proofs.CacheEff Proofs.CacheU Proofs.CacheInv
-  Proofs.CacheLoad Proofs.CacheProc Proofs.CacheCor Proofs.CacheNoU.
+  Proofs.CacheLoad Proofs.CacheProc Proofs.CacheCor Proofs.CacheNoU Proofs.CacheLive.
 
 (* ---------------------------------------------------------------- the property *)
 
@@ -264,6 +264,72 @@ Proof.
   - intros x ps' ch G E. eapply wt_uact_ugood; eassumption.
 Qed.
 Print Assumptions write_through_follows_tag_directory.
+
+(* ---------------------------------------------------------------- several live instances in one process *)
+
+(* Model/CacheLive.v: one process of a user holds several Eups instances at the same time; they share the
+   database files and the cache files of the user and each keeps its own loaded copy.  Before an instance
+   does anything with a stack it calls ensureInSync on it.  [ensure_in_sync_held] is the repaired
+   ensureInSync (proposed_fixes/C07-ensure-in-sync-held-flavors: the flavors the stack holds are read again);
+   the pinned one, [ensure_in_sync] of Model/Cache.v, reads every cache file of the directory and is refuted
+   below (live_refuted_pinned_reload_all).
+
+   [live_ok w loc s ps]: every flavor the stack holds agrees with the files or its cache file was rewritten
+   since the stack loaded or wrote it, and when a held file was rewritten the cache files of the held
+   flavors agree with the files (what the write-through of the other instance leaves:
+   write_through_follows_database, then persist).  Under it the answers through the cache after
+   ensureInSync are those of the database files, for every flavor, whatever the instance did in between
+   (tables parsed on demand leave no trace in the model: table_read_changes_nothing).
+
+   NOT proved (stated here in full): for every reachable w and every session xs of a user u <> upsdb,
+     run_session tick repaired false u fl w xs = (w', ms) -> nth_error ms i = Some m ->
+     forall s ps, alookup s m = Some ps -> live_ok w' u s ps
+   -- that every step of a session re-establishes live_ok for every OTHER live instance.  Before the repair of
+   ProductStack.fromCache (D58: an instance that loaded from the shared files of ups_db did not watch the file
+   in its own directory) it was false: shared_cache_fallback_tracks_own_file, stale_writer_does_not_overwrite
+   show the repaired behaviour on the two witnesses.  No counterexample is known now; it is still not proved.
+   The correspondence runs compare the model of the sessions with the real code step by step instead. *)
+Theorem live_instance_coherent : forall w loc m q,
+  map fst m = map fst (w_db w) ->
+  (forall s ps, alookup s m = Some ps -> live_ok w loc s ps) ->
+  q_served w (sync_mem false w loc m) q = q_db w q.
+Proof. intros w loc m q K L. apply live_coherent; assumption. Qed.
+Print Assumptions live_instance_coherent.
+
+(* what ensureInSync reads again replaces the data of the flavor wholesale: versions, directories, tables
+   and tags are those of the cache file, nothing of the old copy is kept *)
+Theorem live_reload_replaces_the_flavor_wholesale : forall w s loc ps f p,
+  held_moved w s loc ps = true -> alookup f (ps_lookup ps) <> None -> pk_get w loc s f = Some p ->
+  alookup f (ps_lookup (ensure_in_sync_held w s loc ps)) = Some (pk_data p).
+Proof. intros. apply sync_held_wholesale; assumption. Qed.
+Print Assumptions live_reload_replaces_the_flavor_wholesale.
+
+(* and it never makes the stack hold a flavor it did not hold (whose cache file nobody checked) *)
+Theorem live_reload_adds_no_flavor : forall w s loc ps f,
+  alookup f (ps_lookup ps) = None -> alookup f (ps_lookup (ensure_in_sync_held w s loc ps)) = None.
+Proof. intros. apply sync_held_no_new_flavor; assumption. Qed.
+Print Assumptions live_reload_adds_no_flavor.
+
+(* every instance built in any reachable world starts in that state, for every stack *)
+Theorem new_instance_is_live_ok : forall tick, clock_strict tick -> forall w, reachable tick repaired w ->
+  forall u fl s ps, u <> upsdb -> alookup s (snd (load tick repaired w u u fl)) = Some ps ->
+  live_ok (fst (load tick repaired w u u fl)) u s ps.
+Proof.
+  intros tick CS w R u fl s ps Hu H. destruct (reachable_inv tick w CS R) as [I ND].
+  destruct (load tick repaired w u u fl) as [w1 m] eqn:El. cbn [fst snd] in *.
+  destruct (load_ok tick w u u fl w1 m CS I ND Hu (or_introl eq_refl) El) as [_ [_ [_ [_ L1]]]].
+  destruct (L1 s ps H) as [X _]. eapply ps_ok_live_ok. exact X.
+Qed.
+Print Assumptions new_instance_is_live_ok.
+
+(* parsing a table on demand (Product.getTable handing the table back to the stack, which marks the flavor
+   as updated) is, for the files and for every instance, the same step as being asked: ensureInSync and
+   nothing else *)
+Theorem table_read_changes_nothing : forall tick vr pin u fl w ms i,
+  fst (fst (run_lstep tick vr pin u fl w ms (LTable i))) = w /\
+  run_lstep tick vr pin u fl w ms (LTable i) = run_lstep tick vr pin u fl w ms (LAsk i).
+Proof. intros. destruct (table_and_ask_keep_world tick vr pin u fl w ms i) as [A [_ B]]. split; assumption. Qed.
+Print Assumptions table_read_changes_nothing.
 
 (* ---------------------------------------------------------------- witnesses *)
 
@@ -563,3 +629,84 @@ Example unloaded_flavor_repaired :
   q_served (fst (load S repaired w_foreign u1 u1 L)) (snd (load S repaired w_foreign u1 u1 L)) (QDeclared s1 a (lit "1.0") D)
     = ABool true.
 Proof. vm_compute. reflexivity. Qed.
+
+(* ---------------------------------------------------------------- several live instances: witnesses *)
+
+Definition declt (f : str) (v : string) (t : string) : pop :=
+  POp (Declare (o f) a (lit v) (Some (lit "/prod/a")) None (Some (lit t))).
+Definition retag (f : str) (t : string) (v : string) : pop := POp (AssignTag (o f) (lit t) a (lit v)).
+Arguments declt f v%string t%string.
+Arguments retag f t%string v%string.
+
+(* two instances of u1; instance 0 parses a table; instance 1 moves the tag current from 1.0 to 2.0 (chain
+   files only); instance 0 is asked, then moves stable (its copy goes into the cache file), instance 1 is asked *)
+Definition w_live : world := run_proc S repaired w0 (P u1 g [declt g "1.0" "current"; decl g "2.0"]).
+Definition live_steps : list lstep :=
+  [LNew; LNew; LTable 0; LOp 1 (retag g "current" "2.0"); LAsk 0; LOp 0 (retag g "stable" "1.0"); LAsk 1].
+
+Example live_session_example :
+  let '(w', ms) := run_session S repaired false u1 g w_live live_steps in
+  length ms = 2 /\
+  live_answer w' ms 0 (QTagged s1 a (lit "current") g) = AVer (Some (lit "2.0")) /\
+  live_answer w' ms 1 (QTagged s1 a (lit "stable") g) = AVer (Some (lit "1.0")) /\
+  q_db w' (QTagged s1 a (lit "current") g) = AVer (Some (lit "2.0")) /\
+  q_db w' (QTagged s1 a (lit "stable") g) = AVer (Some (lit "1.0")) /\
+  q_served w' (snd (load S repaired w' u1 u1 g)) (QTagged s1 a (lit "current") g) = AVer (Some (lit "2.0")).
+Proof. vm_compute. repeat split. Qed.
+
+(* the pinned ensureInSync reads every cache file of the directory: u1 declared a 2.0 for Darwin, u2 undeclared
+   it (the Darwin cache file of u1 is out of date); a live instance of u1, flavor generic, that reloads because
+   another instance declared something, from then on holds Darwin and answers that a 2.0 is declared *)
+Definition w_dar : world :=
+  run_proc S repaired (run_proc S repaired w0 (P u1 D [decl D "2.0"])) (P u2 D [undecl D "2.0"]).
+Definition dar_steps : list lstep := [LNew; LNew; LOp 1 (decl g "3.0"); LAsk 0].
+
+Example live_refuted_pinned_reload_all :
+  let '(w', ms) := run_session S repaired true u1 g w_dar dar_steps in
+  live_answer w' ms 0 (QDeclared s1 a (lit "2.0") D) = ABool true /\
+  q_db w' (QDeclared s1 a (lit "2.0") D) = ABool false.
+Proof. vm_compute. split; reflexivity. Qed.
+
+Example reload_held_flavors_repaired :
+  let '(w', ms) := run_session S repaired false u1 g w_dar dar_steps in
+  live_answer w' ms 0 (QDeclared s1 a (lit "2.0") D) = ABool false /\
+  live_answer w' ms 0 (QDeclared s1 a (lit "3.0") g) = ABool true /\
+  q_db w' (QDeclared s1 a (lit "3.0") g) = ABool true.
+Proof. vm_compute. repeat split. Qed.
+
+(* an instance that loads a stack from the shared cache files of ups_db (an administrator keeps them; the
+   user has none of his own, or out-of-date ones) persists it into its own directory (repaired:
+   proposed_fixes/C07-fromcache-persists-after-fallback, D58): it then has a file of its own whose time it
+   recorded, ensureInSync sees the write-through of another live instance, and save refuses to write over
+   it.  Before the repair the instance had no time for that file and took it for in sync: it never saw the
+   declaration below, and - the second session - a stale instance saved its copy over the other one's update
+   (corpus/C07/live-shared-cache-untracked-own-file.json, live-shared-cache-stale-writer.json) *)
+Definition w_adm : world := run_proc S repaired w0 (Adm u2 g).
+Definition adm_steps : list lstep := [LNew; LNew; LOp 0 (decl g "1.0"); LAsk 1].
+
+Example shared_cache_fallback_tracks_own_file :
+  let '(w', ms) := run_session S repaired false u2 g w_adm adm_steps in
+  live_answer w' ms 1 (QDeclared s1 a (lit "1.0") g) = ABool true /\
+  live_answer w' ms 0 (QDeclared s1 a (lit "1.0") g) = ABool true /\
+  q_db w' (QDeclared s1 a (lit "1.0") g) = ABool true /\
+  q_served w' (snd (load S repaired w' u2 u2 g)) (QDeclared s1 a (lit "1.0") g) = ABool true.
+Proof. vm_compute. repeat split. Qed.
+
+(* u1 declares a 2.0, his cache file for s1 is deleted, an administrator's load leaves shared files; three
+   instances of u1 load s1 from them; instance 2 undeclares a 2.0; instance 1 declares a 1.0; instance 2 is
+   asked, and a new process: a 2.0 is gone for everybody, and from the cache file *)
+Definition w_stale : world :=
+  run_proc S repaired (delete_cache (run_proc S repaired w0 (P u1 g [decl g "2.0"])) u1 s1 g) (Adm u1 g).
+Definition stale_steps : list lstep := [LNew; LNew; LNew; LOp 2 (undecl g "2.0"); LOp 1 (decl g "1.0"); LAsk 2].
+
+Example stale_writer_does_not_overwrite :
+  let '(w', ms) := run_session S repaired false u1 g w_stale stale_steps in
+  live_answer w' ms 2 (QDeclared s1 a (lit "2.0") g) = ABool false /\
+  live_answer w' ms 2 (QDeclared s1 a (lit "1.0") g) = ABool true /\
+  q_db w' (QDeclared s1 a (lit "2.0") g) = ABool false /\
+  q_served w' (snd (load S repaired w' u1 u1 g)) (QDeclared s1 a (lit "2.0") g) = ABool false /\
+  q_served w' (snd (load S repaired w' u1 u1 g)) (QDeclared s1 a (lit "1.0") g) = ABool true.
+Proof. vm_compute. repeat split. Qed.
+
+Example live_worlds_reachable : reachable S repaired w_live /\ reachable S repaired w_dar /\ reachable S repaired w_adm /\ reachable S repaired w_stale.
+Proof. unfold w_live, w_dar, w_adm, w_stale. repeat split; reach. Qed.
